@@ -341,6 +341,10 @@ def returns_big(n1):
 
 def mixed_keys(m0):
     return m0
+
+
+def optional_field(rows1):
+    return rows1
 '''
 C06_SHAPES_PLAN = (
     [_call("gen_rows", ["1"], "gen")]
@@ -351,12 +355,13 @@ C06_SHAPES_PLAN = (
                                              "defaultdict(dict, {'k': {'ca': 1, 'cb': 2, 'cc': 3}})", "[({'ca': 1, 'cb': 2, 'cc': 3},)]", "{'w': [{'ca': 1, 'cb': 2, 'cc': 3}]}")]
     + [_call("merged_list", [v]) for v in ("[{'ma': 1}, {'mb': 2}]", "[{'mc': 3}]", "[{'ma': 1, 'md': 4}, {'me': 5}]", "[]")]
     + [_call("returns_big", [str(n)]) for n in (0, 1, 2, 3, 4, 10, 11)]
+    + [_call("optional_field", ["[{'id': 1}, {'id': 2, 'extra': {'ea': 1, 'eb': 2, 'ec': 3}}]"])]
     + [_call("mixed_keys", [v]) for v in ("{'xa': 1, 2: 3}", "{1: 2}", "{}", "{'xa': 1}", "{SKey('xa'): 1}")]
 )
 C06_PINNED = [{"name": "vfm06_shapes", "seed": "c06shapes", "stratum": "main", "ks": KS, "rewriters": ["NoOpRewriter", "DEFAULT"], "flags": ["default", "norewrite"],
                "cross_k": {"10": [0, 1, 2, 3], "3": [0, 1, 2], "2": [0, 1]},
                "literal": {"source": C06_SHAPES_SOURCE, "funcs": [[q, "gen" if q == "gen_rows" else "plain"] for q in
-                                                                  ("gen_rows", "nested", "shared_a", "shared_b", "in_containers", "merged_list", "returns_big", "mixed_keys")],
+                                                                  ("gen_rows", "nested", "shared_a", "shared_b", "in_containers", "merged_list", "returns_big", "mixed_keys", "optional_field")],
                            "plan": C06_SHAPES_PLAN}}]
 
 
